@@ -33,6 +33,29 @@ func (r *checkRun) canaries() []canaryResult {
 	if err != nil {
 		return nil
 	}
+	// at most canaryCap seeded changes per run (each costs a quick check on a scratch copy); which ones
+	// rotates with VERIF_SEED, so repeated thorough runs cover all of them
+	const canaryCap = 8
+	var sel []string
+	for _, m := range dirs {
+		var meta struct {
+			Property string `json:"property"`
+			Detected bool   `json:"detected"`
+		}
+		if readJSON(m, &meta) == nil && meta.Property == r.prop && meta.Detected {
+			sel = append(sel, m)
+		}
+	}
+	if len(sel) > canaryCap {
+		off := (r.seed * canaryCap) % len(sel)
+		if off < 0 {
+			off = -off
+		}
+		rot := append(append([]string{}, sel[off:]...), sel[:off]...)
+		sel = rot[:canaryCap]
+		sort.Strings(sel)
+	}
+	dirs = sel
 	for _, m := range dirs {
 		var meta struct {
 			ID       string `json:"id"`
